@@ -137,10 +137,10 @@ var reFrame = regexp.MustCompile(`^\s+([A-Za-z0-9_./\-]+(?:\(\*?[A-Za-z0-9_\[\].
 func collectRaces(a *runner.Aggregate, scratch string) {
 	files, _ := filepath.Glob(filepath.Join(scratch, "race-*"))
 	type report struct {
-		sig   string
-		text  string
-		repo  [2]bool
-		harn  bool
+		sig  string
+		text string
+		repo [2]bool
+		harn bool
 	}
 	seen := map[string]report{}
 	total := 0
@@ -262,11 +262,7 @@ func runRaceFleet(p c17Params, env *runner.Env, res *runner.Result) {
 			res.Verdict, res.Msg = runner.Inconclusive, err.Error()
 			return
 		}
-		defer func() {
-			if allReturnedFlag.Load() {
-				x.Close()
-			}
-		}()
+		_ = allReturnedFlag.Load // the environments are never closed here (see runCancel)
 		loopp.AppPut(x, s, "init", "v")
 		insts = append(insts, x)
 		// subscribers
@@ -331,22 +327,42 @@ func runRaceFleet(p c17Params, env *runner.Env, res *runner.Result) {
 	}
 	wwg.Wait()
 	time.Sleep(60 * time.Millisecond)
+	evAtCancel := s.Len()
 	cancel()
+	for _, l := range loops {
+		l.Cancel()
+	}
 	t0 := time.Now()
 	allReturned := true
+	progress := func() int64 {
+		return int64(s.Len()) + int64(len(b.Log()))
+	}
 	for _, l := range loops {
-		if !l.Stop(10 * time.Second) {
+		l := l
+		ok, why, inc := waitOrWedged(l.Done(), []string{"syncer.(*Syncer).syncLoop", "syncer.(*Syncer).Sync("}, progress, func() string {
+			// an iteration that was in flight may complete; starting a fourth one after the cancel is running on
+			if c := s.Count(l.I.Name, "loop.top", evAtCancel); c > 3 {
+				return fmt.Sprintf("%d further loop iterations were started after the cancellation", c)
+			}
+			return ""
+		})
+		if inc {
+			res.Verdict, res.Msg = runner.Inconclusive, "a Sync of the fleet did not return within the watchdog but is runnable (starved)"
+			return
+		}
+		if !ok {
 			allReturned = false
 			allReturnedFlag.Store(false)
-			res.Violate("sync-did-not-return-after-cancel", fmt.Sprintf("Sync of %s did not return within 10 s after cancellation (fleet)", l.I.Name), map[string]any{"goroutines": goroutineDump(8000)})
+			res.Violate("sync-did-not-return-after-cancel", fmt.Sprintf("Sync of %s did not return after cancellation (fleet): %s", l.I.Name, why), map[string]any{"goroutines": goroutineDump(8000)})
 		}
 	}
 	subDone := make(chan struct{})
 	go func() { subWG.Wait(); close(subDone) }()
-	select {
-	case <-subDone:
-	case <-time.After(10 * time.Second):
-		res.Violate("subscriber-blocked", "event subscribers did not finish within 10 s after cancellation", map[string]any{"goroutines": goroutineDump(12000)})
+	if ok, why, inc := waitOrWedged(subDone, []string{"utils/topics", "concp.runFleet.func"}, func() int64 { return atomic.LoadInt64(&delivered) + atomic.LoadInt64(&subCloses) }, nil); inc {
+		res.Verdict, res.Msg = runner.Inconclusive, "event subscribers did not finish within the watchdog but are runnable (starved)"
+		return
+	} else if !ok {
+		res.Violate("subscriber-blocked", "event subscribers did not finish after cancellation: "+why, map[string]any{"goroutines": goroutineDump(12000)})
 	}
 	res.Count("race_fleets", 1)
 	res.Count("fleet_instances", int64(n))
@@ -436,12 +452,9 @@ func runCancel(p c17Params, env *runner.Env, res *runner.Result) {
 		res.Verdict, res.Msg = runner.Inconclusive, err.Error()
 		return
 	}
-	stillRunning := false // a Sync that did not return keeps using the environment: do not close it under its feet
-	defer func() {
-		if !stillRunning {
-			x.Close()
-		}
-	}()
+	// The environment is never closed in this check: the statement only promises that the sync loop returns; helper
+	// goroutines (stats logger, sweeper) of a returned Sync may still be inside LMDB calls for a moment, and closing
+	// the environment under them is a crash of the harness's making. One process per case: the OS cleans up.
 	loopp.AppPut(x, s, "init", "v")
 	var loop *sched.Loop
 	var loopPtr atomic.Pointer[sched.Loop]
@@ -490,15 +503,55 @@ func runCancel(p c17Params, env *runner.Env, res *runner.Result) {
 		return
 	}
 	evAtCancel := s.Len()
-	select {
-	case <-loop.Done():
-	case <-time.After(10 * time.Second):
-		stillRunning = true
+	callsAtCancel := len(b.Log())
+	// Sync must return. Verdict in logical steps: more than 40 further yield events or 200 further bucket calls of
+	// a cancelled instance mean that a loop keeps running; no activity at all with the loop goroutine blocked (not
+	// runnable) in two dumps means it is wedged. A runnable but slow goroutine is waited for (watchdog: inconclusive).
+	watchdog := time.Now().Add(90 * time.Second)
+	returned := false
+	why := ""
+	for !returned && why == "" {
+		select {
+		case <-loop.Done():
+			returned = true
+			continue
+		case <-time.After(50 * time.Millisecond):
+		}
+		ny, nc := s.Len()-evAtCancel, len(b.Log())-callsAtCancel
+		switch {
+		case ny > 40:
+			why = fmt.Sprintf("%d further yield events happened after the cancel: the loop keeps running", ny)
+		case nc > 200:
+			why = fmt.Sprintf("%d further bucket calls happened after the cancel: a retry loop keeps running", nc)
+		default:
+			b1, r1, _ := actorStates("syncer.(*Syncer).syncLoop", "syncer.(*Syncer).Sync(")
+			if b1 > 0 && r1 == 0 {
+				time.Sleep(1500 * time.Millisecond) // longer than the 1 s retry sleep of the start-up listing loop
+				select {
+				case <-loop.Done():
+					returned = true
+					continue
+				default:
+				}
+				b2, r2, _ := actorStates("syncer.(*Syncer).syncLoop", "syncer.(*Syncer).Sync(")
+				if b2 > 0 && r2 == 0 && s.Len()-evAtCancel == ny && len(b.Log())-callsAtCancel == nc {
+					why = "the sync loop goroutine is blocked (not runnable) with its context cancelled and nothing happens any more"
+				}
+			}
+		}
+		if why == "" && !returned && time.Now().After(watchdog) {
+
+			res.Verdict, res.Msg = runner.Inconclusive, "Sync did not return within the watchdog but its goroutine is runnable (starved)"
+			return
+		}
+	}
+	if !returned {
+
 		sig := "sync-did-not-return-after-cancel"
 		if listFails {
 			sig = "startup-listing-ignores-cancel"
 		}
-		res.Violate(sig, fmt.Sprintf("Sync did not return within 10 s after its context was cancelled at %q (bucket %s, list failing=%v); %d yield events happened after the cancel", p.Point, p.Sub, listFails, s.Len()-evAtCancel),
+		res.Violate(sig, fmt.Sprintf("Sync did not return after its context was cancelled at %q (bucket %s, list failing=%v): %s", p.Point, p.Sub, listFails, why),
 			map[string]any{"params": p, "goroutines": goroutineDump(8000), "events_tail": s.Tail(30)})
 		return
 	}
@@ -645,14 +698,47 @@ func runTopics(p c17Params, res *runner.Result) {
 		close(start)
 		// when all publishers are done the remaining subscribers are released
 		go func() { pwg.Wait(); cancel() }()
+		// Verdict without a wall-clock deadline: the system has no timers, so it is deadlocked iff every actor that
+		// has not finished is blocked (not runnable) in two dumps 300 ms apart while the progress counter stands
+		// still. A starved but live system keeps runnable goroutines and is waited for (watchdog: inconclusive).
 		blocked := []string{}
-		timeout := time.After(5 * time.Second)
-		for _, a := range actors {
-			select {
-			case <-a.done:
-			case <-timeout:
-				blocked = append(blocked, a.name)
-				timeout = time.After(time.Millisecond)
+		remaining := func() []string {
+			var r []string
+			for _, a := range actors {
+				select {
+				case <-a.done:
+				default:
+					r = append(r, a.name)
+				}
+			}
+			return r
+		}
+		watchdog := time.Now().Add(90 * time.Second)
+		var dump string
+		for {
+			rem := remaining()
+			if len(rem) == 0 {
+				break
+			}
+			time.Sleep(20 * time.Millisecond)
+			if len(remaining()) == 0 {
+				break
+			}
+			p0 := atomic.LoadInt32(&published)
+			b1, r1, _ := actorStates("utils/topics", "concp.runTopics")
+			if r1 == 0 && b1 > 0 {
+				time.Sleep(300 * time.Millisecond)
+				b2, r2, d2 := actorStates("utils/topics", "concp.runTopics")
+				if r2 == 0 && b2 > 0 && atomic.LoadInt32(&published) == p0 && len(remaining()) > 0 {
+					blocked = remaining()
+					dump = d2
+					break
+				}
+			}
+			if time.Now().After(watchdog) {
+				res.Verdict, res.Msg = runner.Inconclusive, fmt.Sprintf("topic system did not finish within the watchdog but goroutines are runnable (starved): %v", remaining())
+				cancel()
+				return
 			}
 		}
 		cancel()
@@ -666,8 +752,8 @@ func runTopics(p c17Params, res *runner.Result) {
 			res.NonTrivial = true
 		}
 		if len(blocked) > 0 {
-			res.Violate("topic-close-during-publish", fmt.Sprintf("topic system (%s, %d publishers x %d values, %d subscribers): actors still blocked after 5 s: %v", mode, npub, nval, nsub, blocked),
-				map[string]any{"params": p, "iteration": it, "goroutines": goroutineDump(8000)})
+			res.Violate("topic-close-during-publish", fmt.Sprintf("topic system (%s, %d publishers x %d values, %d subscribers) is deadlocked: every remaining actor is blocked in two consecutive goroutine dumps and nothing was published in between: %v", mode, npub, nval, nsub, blocked),
+				map[string]any{"params": p, "iteration": it, "goroutines": dump})
 			return
 		}
 		if n := atomic.LoadInt32(&pubPanics); n > 0 {
@@ -823,4 +909,76 @@ loop:
 	res.Count("token_rounds", int64(p.Count))
 	res.NonTrivial = true
 	res.Sample = map[string]any{"limit": limit, "rounds": p.Count}
+}
+
+// actorStates inspects a full goroutine dump: for goroutines whose stack contains one of the markers it returns
+// how many are in a blocked state (channel operation, mutex, semaphore, select) and how many are runnable or
+// running. A deadlock has every remaining actor blocked; a starved but live system has runnable ones.
+func actorStates(markers ...string) (blocked, runnable int, dump string) {
+	buf := make([]byte, 4<<20)
+	n := runtime.Stack(buf, true)
+	var keep []string
+	for _, g := range strings.Split(string(buf[:n]), "\n\n") {
+		hit := false
+		for _, m := range markers {
+			if strings.Contains(g, m) {
+				hit = true
+			}
+		}
+		if !hit || strings.Contains(g, "actorStates") {
+			continue
+		}
+		keep = append(keep, g)
+		hdr := g
+		if i := strings.Index(g, "\n"); i > 0 {
+			hdr = g[:i]
+		}
+		switch {
+		case strings.Contains(hdr, "[runnable") || strings.Contains(hdr, "[running") || strings.Contains(hdr, "[sleep") || strings.Contains(hdr, "[syscall") || strings.Contains(hdr, "[GC "):
+			runnable++
+		default:
+			blocked++
+		}
+	}
+	dump = strings.Join(keep, "\n\n")
+	if len(dump) > 12000 {
+		dump = dump[:12000]
+	}
+	return
+}
+
+// waitOrWedged waits for done without a wall-clock verdict. It reports wedged when overrun() names a logical bound
+// that was exceeded (the actors keep working although they were told to stop) or when every goroutine matching the markers is blocked (not
+// runnable) in two dumps 1.5 s apart with progress() unchanged. A runnable but slow system is waited for; only the
+// generous watchdog ends that wait, as inconclusive.
+func waitOrWedged(done <-chan struct{}, markers []string, progress func() int64, overrun func() string) (ok bool, why string, inconclusive bool) {
+	watchdog := time.Now().Add(90 * time.Second)
+	for {
+		select {
+		case <-done:
+			return true, "", false
+		case <-time.After(50 * time.Millisecond):
+		}
+		p0 := progress()
+		if overrun != nil {
+			if w := overrun(); w != "" {
+				return false, w, false
+			}
+		}
+		b1, r1, _ := actorStates(markers...)
+		if b1 > 0 && r1 == 0 {
+			select {
+			case <-done:
+				return true, "", false
+			case <-time.After(1500 * time.Millisecond):
+			}
+			b2, r2, _ := actorStates(markers...)
+			if b2 > 0 && r2 == 0 && progress() == p0 {
+				return false, "every remaining goroutine is blocked (none runnable) in two dumps 1.5 s apart and no step was taken in between", false
+			}
+		}
+		if time.Now().After(watchdog) {
+			return false, "", true
+		}
+	}
 }
